@@ -292,6 +292,50 @@ pub fn core_sequence(mut idx: u64, depth: usize, advs: &[u64], tick: u32, mid: u
     ops
 }
 
+/// The larger alphabet: 36 create-and-place operations = 5 prices (mid-2 .. mid+2) x 3 volumes (1, 2, 5) x 2 sides
+/// (limit) + 3 volumes (2, 3, 7) x 2 sides (market): sweeps over several levels with gaps, partial fills
+/// with remainders of different sizes.
+pub const CORE2_OPS: u64 = 36;
+pub fn core_op2(k: usize, tick: u32, mid: u32) -> Op {
+    if k < 30 {
+        let price = (mid - 2 + (k % 5) as u32) * tick;
+        let vol = [1u32, 2, 5][(k / 5) % 3];
+        let bid = k / 15 == 0;
+        Op::CreatePlace { bid, vol, trader: (k % 4) as u32, price: Some(price) }
+    } else {
+        let j = k - 30;
+        Op::CreatePlace { bid: j / 3 == 0, vol: [2u32, 3, 7][j % 3], trader: 7, price: None }
+    }
+}
+
+pub fn core_space2(depth: usize, n_adv: u64) -> u64 {
+    (0..depth as u64).map(|k| n_adv * (CORE2_OPS + k)).product()
+}
+
+pub fn core_sequence2(mut idx: u64, depth: usize, advs: &[u64], tick: u32, mid: u32) -> Vec<Op> {
+    let n_adv = advs.len() as u64;
+    let radices: Vec<u64> = (0..depth as u64).map(|k| n_adv * (CORE2_OPS + k)).collect();
+    let mut digits = vec![0u64; depth];
+    for k in (0..depth).rev() {
+        digits[k] = idx % radices[k];
+        idx /= radices[k];
+    }
+    let mut ops = vec![];
+    for d in digits.iter() {
+        let adv = advs[(d % n_adv) as usize];
+        let c = (d / n_adv) as usize;
+        if adv > 0 {
+            ops.push(Op::Advance(adv));
+        }
+        if c < CORE2_OPS as usize {
+            ops.push(core_op2(c, tick, mid));
+        } else {
+            ops.push(Op::Cancel(exact_ref(c - CORE2_OPS as usize)));
+        }
+    }
+    ops
+}
+
 /// A `Ref` that resolves to exactly id `i` as long as fewer than 4096 orders exist... encoded by
 /// pref = 100 + i (ids < 150) and handled by `resolve_exact`.
 pub fn exact_ref(i: usize) -> Ref {
@@ -430,8 +474,8 @@ pub fn env_case_strategy(cfg: EnvGenCfg) -> BoxedStrategy<EnvCase> {
         1 => prop_oneof![12 => 1u8..=4, 1 => proptest::sample::select(vec![8u8, 11, 12, 16])].boxed(),
         _ => prop_oneof![8 => Just(0u8), 4 => Just(1u8), 8 => Just(2u8), 4 => Just(3u8), 4 => Just(4u8), 1 => proptest::sample::select(vec![8u8, 11, 12, 16])].boxed(),
     };
-    let head = (kind, proptest::collection::vec((1u32..=10, 6u32..1000), 16), 1usize..=crate::dynbook::MAX_LEVELS, proptest::sample::select(MARKET_LEVELS.to_vec()), 0u64..100_000, any::<u64>(), 0u32..100, 0u32..100);
-    head.prop_flat_map(move |(kind_assets, tm, l_env, l_mkt, t0, seed, off, large)| {
+    let head = (kind, proptest::collection::vec((1u32..=10, 6u32..1000), 16), 1usize..=crate::dynbook::MAX_LEVELS, proptest::sample::select(MARKET_LEVELS.to_vec()), 0u64..100_000, any::<u64>(), 0u32..100, (0u32..100, 0u32..100));
+    head.prop_flat_map(move |(kind_assets, tm, l_env, l_mkt, t0, seed, off, (large, ext))| {
         let n = (kind_assets as usize).max(1);
         let levels = if kind_assets == 0 { l_env } else if kind_assets > 4 { if l_mkt % 2 == 0 { 10 } else { 3 } } else { l_mkt };
         let ticks: Vec<u32> = tm.iter().take(n).map(|x| x.0).collect();
@@ -460,7 +504,26 @@ pub fn env_case_strategy(cfg: EnvGenCfg) -> BoxedStrategy<EnvCase> {
         let step = (0u32..100, any::<bool>(), proptest::collection::vec(instr, batch_range)).prop_map(move |(r, on, instrs)| StepSpec { toggle: if r < tp { Some(on) } else { None }, instrs });
         let (overfull, drain) = (cfg.overfull, cfg.drain);
         let exact_vols = cfg.big_vols;
+        // arbitrary-price cases: in 14 % of them one side sits at the very end of the price range (every limit
+        // bid at price 0, or every limit ask at the last grid price <= 2^32-1), so the touch itself is at the
+        // value that doubles as the empty-side sentinel
+        let extreme: u8 = if cfg.offgrid && ext < 14 { 1 + (ext % 2) as u8 } else { 0 };
+        let ticks_x = ticks.clone();
         (step_size_s, proptest::collection::vec(step, 1..=cfg.max_steps)).prop_map(move |(step_size, mut steps)| {
+            if extreme > 0 {
+                for s in steps.iter_mut() {
+                    for ins in s.instrs.iter_mut() {
+                        if let Instr::New { asset, bid, price: Some(p), .. } = ins {
+                            let tk = ticks_x[*asset as usize % ticks_x.len()];
+                            if extreme == 1 && *bid {
+                                *p = 0;
+                            } else if extreme == 2 && !*bid {
+                                *p = (u32::MAX / tk) * tk;
+                            }
+                        }
+                    }
+                }
+            }
             if overfull {
                 // batches of step_size+1 .. 4*step_size instructions
                 for s in steps.iter_mut() {
